@@ -657,6 +657,7 @@ class SymCtx:
         self._fresh = 0
         self._names = set()
         self.path_unknown = False
+        self._mp_epoch = 0
         self._memo = {}
         self.path_obligations = []
         self.notes = {}
